@@ -5,8 +5,12 @@
 //!   the implementation performed them, through the `set_fs_callback` hook).
 //! The model predicts both (file names through the implementation's own naming functions); the spec is judged
 //! after every completed flush: listing = {meta} + files of the catalogue on disk, nothing else.
-//! Latency stream: back-to-back ingestion with `max_wal_size_bytes = 1` must keep returning (the background
-//! flush resets the accounted log size).
+//! Latency stream: back-to-back ingestion with `max_wal_size_bytes` in {0, 1, exactly the size accounted after the first
+//! call, that -1 / +1, exactly the size of a recovered log, that -1 / +1} must keep returning (the background flush,
+//! triggered by the same comparison the ingestion gate uses, resets the accounted log size).
+//! Interleaved stream (`inter:*`, see c08.rs): a flush parked at every labelled boundary after its freeze while the main
+//! thread ingests and a second thread calls force_flush — that call must not return before a LATER flush has removed the
+//! segments acknowledged before it; after every completed flush only the segments written since its freeze may exist.
 #[path = "store/common.rs"]
 mod store_common;
 use store_common::*;
@@ -15,31 +19,75 @@ use vharness::*;
 /// Generous per-call deadline (the machine is shared): the background flush thread polls once per second.
 const LAT_DEADLINE_S: u64 = 90;
 
-fn latency_case(n: usize, io: usize, combine: u64, cthreads: usize) -> (String, String, String) {
+fn lat_batch(i: usize) -> Vec<Batch> { vec![bat("t", &[("a", vec![Cell::Int(i as i64)])])] }
+
+/// Accounted size of each of the `n` back-to-back calls of the latency stream (`data.len()` of its log segment =
+/// file size - 48 header bytes), measured on a fresh database whose limits are never reached.
+fn calibrate(n: usize) -> Vec<u64> {
     let dir = tempfile::tempdir().unwrap();
-    let cfg = Cfg { wal_bytes: 1, io, combine, cthreads, ..Cfg::plain() };
+    let mut sut = Sut::open(dir.path(), &Cfg::plain());
+    let mut sizes = vec![];
+    for i in 0..n {
+        let before = sut.wal_bytes_on_disk();
+        sut.apply(&Step::Ingest(lat_batch(i)));
+        sizes.push(sut.wal_bytes_on_disk().saturating_sub(before));
+    }
+    sizes
+}
+
+#[derive(Clone, Debug)]
+enum Limit { Abs(u64), /// size accounted after the first call + delta
+             FirstPlus(i64), /// database restarted (not flushed) after `k` calls, limit = recovered size + delta
+             Recovered(usize, i64) }
+
+/// Latency stream: `n` back-to-back ingestion calls with a log-size limit at / around the accounted size.  Every call
+/// must return before the deadline: a call that finds the accounted size above the limit waits for the background
+/// flush, which must therefore be triggered by the same comparison.
+fn latency_case(n: usize, io: usize, combine: u64, cthreads: usize, limit: &Limit, sizes: &[u64]) -> (String, String, String, String) {
+    let dir = tempfile::tempdir().unwrap();
+    let (lim, pre, first, class): (u64, u64, usize, String) = match limit {
+        Limit::Abs(l) => (*l, 0, 0, format!("latency:wal_bytes={}", l)),
+        Limit::FirstPlus(d) => ((sizes[0] as i64 + d).max(0) as u64, 0, 0, format!("latency:wal_bytes=first{:+}", d)),
+        Limit::Recovered(k, d) => {
+            // session 1: k calls, dropped without a flush
+            let mut s1 = Sut::open(dir.path(), &Cfg { io, combine, cthreads, ..Cfg::plain() });
+            for i in 0..*k { s1.apply(&Step::Ingest(lat_batch(i))); }
+            let rec = s1.wal_bytes_on_disk();
+            drop(s1);
+            ((rec as i64 + d).max(0) as u64, rec, *k, format!("latency:wal_bytes=recovered{:+}", d))
+        }
+    };
+    let cfg = Cfg { wal_bytes: lim, io, combine, cthreads, ..Cfg::plain() };
     let mut sut = Sut::open(dir.path(), &cfg);
     let t0 = std::time::Instant::now();
     let mut worst = 0u128;
-    for i in 0..n {
+    let mut waited = 0usize;
+    for i in first..n {
         if !sut.alive() { break; }
         let db = sut.db.clone().unwrap();
-        let ev = event_buffer(&[bat("t", &[("a", vec![Cell::Int(i as i64)])])]);
+        let ev = event_buffer(&lat_batch(i));
         let t1 = std::time::Instant::now();
         match with_deadline(LAT_DEADLINE_S, move || ingest_sync(&db, ev)) {
             None => sut.dead = Some("hang:ingest".into()),
             Some(Err(p)) => { sut.dead = Some("panic:ingest".into()); sut.panic_detail = p; }
             Some(Ok(())) => {}
         }
-        worst = worst.max(t1.elapsed().as_millis());
+        let ms = t1.elapsed().as_millis();
+        if ms > 400 { waited += 1; }
+        worst = worst.max(ms);
     }
+    // the last call may have triggered a background flush: let it finish before the directory is removed
+    if sut.alive() { sut.settle(); }
     let out = match &sut.dead { Some(d) => d.clone(), None => "returned".to_string() };
-    (format!("LAT {} io={} combine={} cthreads={}", n, io, combine, cthreads), out, format!("{} back-to-back ingests with max_wal_size_bytes=1 (each call after the first finds the accounted log size above the limit and waits for the background flush): total {} ms, slowest call {} ms {}", n, t0.elapsed().as_millis(), worst, sut.panic_detail))
+    let line = format!("LAT {} io={} combine={} cthreads={} limit={} pre={} sizes={}", n, io, combine, cthreads, lim, pre, fmt_list(&sizes[first..n]));
+    let note = format!("{} back-to-back ingests, max_wal_size_bytes={} ({:?}), accounted sizes {:?}, recovered {}: total {} ms, slowest call {} ms, calls slower than 400 ms {} {}",
+        n - first, lim, limit, &sizes[first..n], pre, t0.elapsed().as_millis(), worst, waited, sut.panic_detail);
+    (class, line, out, note)
 }
 
 fn main() {
     let args = parse_args();
-    quiet_panics();
+    if std::env::var("VERIF_LOUD").is_err() { quiet_panics(); }
     let mut rng = Rng::new(args.seed);
     let mut cases = Cases::create(&args.out);
     install_fs_recorder();
@@ -48,18 +96,53 @@ fn main() {
     let mut cols = plain_column_pool();
     cols.push(long_name());      // key of its sub-partition is a hash (not file-system safe)
     cols.push("UPPER".to_string());
-    let jobs = standard_jobs(&args, &mut rng, &tables, &cols, null_loss);
-    let lat = std::thread::spawn(move || vec![latency_case(5, 1, 4, 1), latency_case(4, 4, 1, 2), latency_case(3, 4, 0, 2)]);
-    let results = par_map(jobs, 8, |job: Job| { let obs = run_history(&job.cfg, &job.steps); (job, obs) });
+    // interleaved phase first (the sync-point gate is process-global: no other flush may run in this process meanwhile)
+    let ijobs = inter_jobs(&args, &mut rng, &tables, &cols, null_loss);
+    install_gate();
+    let mut results = par_map(ijobs, 8, |job: Job| { let obs = run_history(&job.cfg, &job.steps); (job, obs) });
+    uninstall_gate();
+    let only_inter = args.rest.iter().any(|a| a == "--only-inter");
+    let mut jobs = if only_inter { vec![] } else { standard_jobs(&args, &mut rng, &tables, &cols, null_loss) };
+    if !only_inter { jobs.extend(name_jobs(&args)); }
+    let thorough = args.thorough();
+    let lat = std::thread::spawn(move || {
+        let sizes = calibrate(5);
+        let mut v = vec![];
+        // limits at and around the accounted size: 0, 1, exactly the size after the first call, that -1 / +1,
+        // and a recovered log whose size equals the limit (-1 / +1)
+        let mut specs: Vec<(usize, usize, u64, usize, Limit)> = vec![
+            (5, 1, 4, 1, Limit::Abs(1)), (4, 4, 1, 2, Limit::Abs(1)), (3, 4, 0, 2, Limit::Abs(1)),
+            (4, 1, 4, 1, Limit::Abs(0)), (3, 4, 1, 2, Limit::Abs(0)),
+            (4, 1, 4, 1, Limit::FirstPlus(0)), (4, 4, 1, 2, Limit::FirstPlus(-1)), (4, 1, 4, 1, Limit::FirstPlus(1)),
+            (5, 1, 4, 1, Limit::Recovered(2, 0)), (5, 4, 1, 2, Limit::Recovered(2, -1)), (5, 1, 4, 1, Limit::Recovered(2, 1)),
+        ];
+        if thorough {
+            for io in [1usize, 4] { for d in [-1i64, 0, 1] {
+                specs.push((5, io, 0, 2, Limit::FirstPlus(d)));
+                specs.push((5, io, 999, 1, Limit::Recovered(1, d)));
+                specs.push((5, io, 4, 1, Limit::Recovered(3, d)));
+            } }
+            specs.push((5, 4, 4, 2, Limit::Abs(0)));
+        }
+        for (n, io, combine, cthreads, limit) in specs { v.push(latency_case(n, io, combine, cthreads, &limit, &sizes)); }
+        v
+    });
+    results.extend(par_map(jobs, 8, |job: Job| { let obs = run_history(&job.cfg, &job.steps); (job, obs) }));
     for (job, obs) in results {
         for k in 0..obs.len() {
+            // while a flush is parked, listing and catalogue are comparable only at the step boundaries of the model
+            if obs[k].mid && !obs[k].boundary && !obs[k].dead { continue; }
             let ltok = listing_tok(&obs[k].listing);
-            let line = format!("{} {} {}", history_line(&job.cfg, &obs, k), ltok, obs[k].effects);
-            let imp = if obs[k].dead { obs[k].dump.clone() } else { format!("{} {} {}", ltok, meta_tok(&obs[k].meta), obs[k].effects) };
-            let note = if k + 1 == obs.len() || obs[k].dead { format!("{} | {}", describe(&job.cfg, &job.steps[..=k]), obs[k].detail) } else { String::new() };
+            let inter_step = matches!(job.steps[obs[k].step], Step::Inter(_));
+            // effect phases: not for the sub-observations of an interleaved flush (its effects interleave with those of the ingestions)
+            let etok = if inter_step { String::new() } else { format!(" {}", obs[k].effects) };
+            let atok = if obs[k].inter { format!(" A={}", obs[k].answered) } else { String::new() };
+            let line = format!("{} {}{}", history_line(&job.cfg, &obs, k), ltok, etok);
+            let imp = if obs[k].dead { obs[k].dump.clone() } else { format!("{} {}{}{}", ltok, meta_tok(&obs[k].meta), etok, atok) };
+            let note = if k + 1 == obs.len() || obs[k].dead { format!("{} | {}", describe(&job.cfg, &job.steps[..=obs[k].step]), obs[k].detail) } else { String::new() };
             cases.push(&format!("{}:{}", job.class, obs[k].kind), &line, &imp, &note);
         }
     }
-    for (line, out, note) in lat.join().unwrap() { cases.push("latency:wal_bytes=1", &line, &out, &note); }
+    for (class, line, out, note) in lat.join().unwrap() { cases.push(&class, &line, &out, &note); }
     cases.finish();
 }
